@@ -1,16 +1,18 @@
 """C13: a mate in one is always played."""
-from .c04 import search_stat, search_nontrivial
+from .c04 import search_stat, search_nontrivial, judge_mate
 
 SPEC = {
     "ties": [{
         "name": "mate-in-one-searches", "group": "hsearch", "key": "MATE1", "tags": ["C13"],
         "n_quick": 224, "n_thorough": 12000, "min_per_shard": 14, "timeout": 6000,
-        "nontrivial": search_nontrivial, "stat": search_stat,
+        "nontrivial": search_nontrivial, "stat": search_stat, "judge": judge_mate,
     }],
     "rule": "positions with at least one mating move, found by filtering seeded random and biased playouts with the engine's own "
             "generator (the mating moves are recomputed by the oracle), plus a curated set; each is searched at depth 1-3 with "
             "cancellation never / at poll 0 / at a random poll, cold tables or tables warmed by an earlier search of another position "
-            "of the same game; observables compared with the extracted search model; the oracle demands that the answer is one of the "
+            "of the same game; observables compared with the extracted search model; a second, specification-based judge reads the mating "
+            "moves of the root from the extracted FIDE specification (not from the engine's generator) and demands that the answer is one of them; "
+            "the oracle demands that the answer is one of the "
             "mating moves; distinct = distinct cases",
     "assumptions": ["root positions satisfy the C10 invariant"],
 }
